@@ -8,6 +8,13 @@ LEVEL_NOTE = ("Seeded search, not proof: a clean batch is evidence for the runs 
               "engine checks the external dsharp/maxsatz binaries shipped with the repository, which run as real code.")
 
 CLAIMED = {
+ "C08": dict(
+    technique="deterministic simulation: seeded histories of ground/query/ground_all on shared database, targets and engines; fresh-run refinement oracle; failing and alarm-interrupted queries as faults; ddmin replay",
+    text="Seeded operation histories (ground query / ground evidence / engine.query / ground_all / new target / new engine) run against one shared prepared ClauseDB, "
+         "up to three targets with their tabling caches and up to three engines; after every operation the touched target is evaluated and compared query by query with "
+         "fresh single-query runs under the same evidence. A separate fault configuration injects queries that raise after doing real work and groundings interrupted by the "
+         "virtual alarm (line-count clock); the model then discards that engine and target while the database stays shared. Exploration level.",
+    design_ref="DESIGN.md §5 C08", quick_t=600, thorough_t=3600),
  "C04": dict(
     technique="deterministic simulation: documented unbuffered / rc-first / seeded random-order message queues (existing init_message_stack seam), differential oracle vs default engine, scripted replay",
     text="Each program is evaluated by the real pipeline with StackBasedEngine(unbuffered=True), (unbuffered=True, rc_first=True) and the RandomOrderEngine "
